@@ -597,8 +597,9 @@ def multiref_attributes_side_by_side(ctx):
     from suds.bindings.multiref import MultiRef
     from suds.sax.parser import Parser
     doc = ('<e:Envelope xmlns:e="%s" xmlns:enc="%s"><e:Body><w xmlns:k="urn:k"><a type="own" k:mark="m" href="#r"/>'
-           '<b href="#r" type="own-b"/></w><multiRef id="r" enc:root="0" xmlns:q="urn:q" q:type="arrived" q:other="o" '
-           'plain="p"><v>1</v></multiRef></e:Body></e:Envelope>' % (xmlread.ENV11, xmlread.ENC)).encode()
+           '<b href="#r" type="own-b">stale text of the referrer</b></w><multiRef id="r" enc:root="0" xmlns:q="urn:q" '
+           'q:type="arrived" q:other="o" plain="p"><v>1</v></multiRef></e:Body></e:Envelope>'
+           % (xmlread.ENV11, xmlread.ENC)).encode()
     body = Parser().parse(string=doc).root().getChild("Body")
     ctx.case(("multiref-attributes",), True)
     MultiRef().process(body)
@@ -611,6 +612,13 @@ def multiref_attributes_side_by_side(ctx):
     if got != want:
         ctx.fail("resolving a reference changed the referring node itself (name / namespace) or lost its content",
                  {"stream": "multiref-attributes", "doc": doc.decode()}, got, want)
+    # the referrer's content IS the referenced element's afterwards: text of its own that the referrer had is gone
+    texts = None if w_ is None else [[c.name, None if c.getText() is None else str(c.getText()), [k.name for k in c.children]]
+                                     for c in w_.children]
+    if texts != [["a", None, ["v"]], ["b", None, ["v"]]]:
+        ctx.fail("resolving a reference changed the referring node itself (name / namespace) or lost its content",
+                 {"stream": "multiref-attributes", "doc": doc.decode(), "aspect": "text"}, texts,
+                 [["a", None, ["v"]], ["b", None, ["v"]]])
 
 
 def multiref_forward_chains(ctx):
